@@ -679,6 +679,20 @@ pub fn run(a: &Args) -> Report {
                                 return;
                             }
                         }
+                        // keeping everything keeps exactly one entry per identity
+                        let mut kept = frozen.clone();
+                        match guard(|| kept.retain(|_| true)) {
+                            Ok(map) => {
+                                if kept.types.len() != frozen.types.len() || map.len() != frozen.types.len() {
+                                    rep.violation("C05/retain-all-changes-entry-count", format!("retain(keep everything) turns {} entries into {}", frozen.types.len(), kept.types.len()), case());
+                                    return;
+                                }
+                            }
+                            Err(p) => {
+                                rep.violation("C05/registration-panic", format!("retain on the frozen registry panicked: {}", p), case());
+                                return;
+                            }
+                        }
                         rep.count("frozen_registries_checked", 1);
                     }
                     Err(p) => {
